@@ -1,6 +1,7 @@
 import Nstd.Xml.Model
 import Nstd.Xml.LemmasEscape
 import Nstd.Xml.LemmasSafe
+import Nstd.Xml.LemmasRt3
 /-
   Property C16 — XML parsing is total and safe; serialising then parsing is identity.
   Theorems about the model `Nstd.Xml.parse` / `Elem.toStr` of src/Document/Xml.cpp.
@@ -26,5 +27,47 @@ theorem parse_no_oob (bs : Bytes) : parse bs ≠ .oob := by
     (`'"&<>` as entities, line breaks in attribute values as `&#10;` / `&#13;`). -/
 theorem escape_unescape (attr : Bool) (s : Bytes) : unescape (escape attr s) = s :=
   unescapeF_escape attr s _ (Nat.le_refl _)
+
+/-- Round trip through `Xml::toString` (header line + `Element::toString`) and `Xml::parse`:
+    for every element tree with well-formed names, pairwise different attribute keys, arbitrary
+    NUL-free attribute values (quotes, ampersands, `<`, line breaks, ...) and non-blank, non-adjacent
+    NUL-free text nodes — of any depth and size — parsing the serialisation succeeds and yields
+    the same names, attribute order and values, texts and nesting (`shape` drops only the
+    line/column the parser records per element). -/
+theorem roundtrip (e : Elem) (hwf : e.wf = true) (hnul : e.nulFree = true) :
+    ∃ e', parse (docToStr e) = .ok e' ∧ e'.shape = e.shape := by
+  have h0 : ∀ b ∈ docToStr e, b ≠ 0 := by
+    intro b hb
+    simp only [docToStr, List.mem_append] at hb
+    rcases hb with hb | hb
+    · revert b; decide
+    · exact elem_toStr_nul e hnul b hb
+  unfold parse
+  rw [cutNul_of_nulFree h0]
+  exact parseDoc_docToStr e hwf
+
+/-- The same for `Element::toString` alone (no header line). -/
+theorem roundtrip_element (e : Elem) (hwf : e.wf = true) (hnul : e.nulFree = true) :
+    ∃ e', parse e.toStr = .ok e' ∧ e'.shape = e.shape := by
+  unfold parse
+  rw [cutNul_of_nulFree (elem_toStr_nul e hnul)]
+  exact parseDoc_toStr e hwf
+
+/-- The round trip inside a larger text: positioned behind the `<` of a serialised well-formed
+    element that is followed by arbitrary bytes, `parseElement` returns the element and stops
+    exactly behind its end (statement used by the induction; any sufficient fuel). -/
+theorem roundtrip_inside (t : Bytes) (e : Elem) (hwf : e.wf = true) (f : Nat) (start p : Pos) (rest : Bytes)
+    (h : 60 :: t.drop p.pos = e.toStr ++ rest) (hf : e.toStr.length ≤ f) :
+    ∃ e' q, parseElement t f start p = .ok (e', q) ∧ e'.shape = e.shape ∧ q.pos + 1 = p.pos + e.toStr.length :=
+  elem_rt t e hwf f start p rest h hf
+
+/-- non-vacuity: `<a x-y="l1\nl2&quot;" b=""> /x<b/>é&amp;<c>t</c></a>` meets the hypotheses -/
+example : (Elem.mk [97] 0 0 [([120, 45, 121], [108, 49, 10, 108, 50, 34]), ([98], [])]
+    (.text [32, 47, 120] (.elem (.mk [98] 0 0 [] .nil) (.text [195, 169, 38]
+      (.elem (.mk [99] 0 0 [] (.text [116] .nil)) .nil))))).wf = true ∧
+    (Elem.mk [97] 0 0 [([120, 45, 121], [108, 49, 10, 108, 50, 34]), ([98], [])]
+    (.text [32, 47, 120] (.elem (.mk [98] 0 0 [] .nil) (.text [195, 169, 38]
+      (.elem (.mk [99] 0 0 [] (.text [116] .nil)) .nil))))).nulFree = true := by
+  constructor <;> decide
 
 end Nstd.Xml
